@@ -79,3 +79,51 @@ def declare(reg):
         )
     reg.properties.setdefault("C14", {}).setdefault("bounded", []).append(
         {"name": "search-vs-reference", "module": "harness.e2e", "func": "SearchExact"})
+
+    # ---- sent-date keys (C14 g): the Date header's calendar date *as written*, disregarding time and zone ----------
+    T = dict(trusted=True)
+    reg.specfn("hdr", "m: opaque:EmailMessage, name: str", "str", doc="A-EMAIL: value of a header field")
+    reg.specfn("has_hdr", "m: opaque:EmailMessage, name: str", "bool", doc="A-EMAIL")
+    reg.specfn("parsed", "s: str", "opaque:datetime", doc="utils.parsedate: RFC 2822 date-time text -> aware datetime")
+    reg.specfn("written_day", "d: opaque:datetime", "int", doc="datetime.date(): the calendar day of the date-time in its own zone (as an ordinal)")
+    reg.contract("<email>", "EmailMessage.__contains__", params={"self": "opaque:EmailMessage", "name": "str"}, ret="bool", ensures={"is": "result == has_hdr(self, name)"}, **T, note="A-EMAIL")
+    reg.contract("<email>", "EmailMessage.__getitem__", params={"self": "opaque:EmailMessage", "name": "str"}, ret="str", ensures={"is": "result == hdr(self, name)"}, **T, note="A-EMAIL")
+    reg.contract("asimap/utils.py", "parsedate", params={"date_time_str": "str"}, ret="opaque:datetime", ensures={"is": "result == parsed(date_time_str)"}, **T, note="A-EMAIL: email.utils.parsedate_to_datetime")
+    reg.contract("<datetime>", "datetime.date", params={"self": "opaque:datetime"}, ret="int", ensures={"is": "result == written_day(self)"}, **T,
+                 note="stdlib; dates are compared as day ordinals (the parser hands SearchArgs.date as a date)")
+    reg.contract("<datetime>", "datetime.astimezone", params={"self": "opaque:datetime", "tz": "opaque:tzinfo"}, ret="opaque:datetime", **T,
+                 note="stdlib: the same instant in another zone (its calendar day may differ: no equation with written_day)")
+    reg.opaque_names["UTC"] = "opaque:tzinfo"
+    MSG = "msg_of(self.ctx.mailbox, self.ctx.msg_key)"
+    for fn, op in (("_match_sentbefore", "<"), ("_match_senton", "=="), ("_match_sentsince", ">=")):
+        reg.contract(
+            P, "IMAPSearch." + fn, params={"self": "ref:IMAPSearch"}, ret="bool",
+            ensures={"date-key": f"result == (has_hdr({MSG}, 'date') and written_day(parsed(hdr({MSG}, 'date'))) {op} self.args['date'])"},
+            modifies=["SearchContext._msg"], props=["C14"],
+        )
+    reg.specfn("idate", "m: ref:Mailbox, k: int", "opaque:datetime", doc="internal date: the message file's mtime as an aware UTC datetime (SearchContext.internal_date)")
+    reg.contract(P, "SearchContext.internal_date", params={"self": "ref:SearchContext"}, ret="opaque:datetime",
+                 ensures={"is": "result == idate(self.mailbox, self.msg_key)"}, modifies=["self._internal_date"], **T, note="A-OS: file mtime, cached")
+    for fn, op in (("_match_before", "<"), ("_match_on", "=="), ("_match_since", ">=")):
+        reg.contract(
+            P, "IMAPSearch." + fn, params={"self": "ref:IMAPSearch"}, ret="bool",
+            ensures={"internal-date-key": f"result == (written_day(idate(self.ctx.mailbox, self.ctx.msg_key)) {op} self.args['date'])"},
+            modifies=["SearchContext._internal_date"], props=["C14"],
+        )
+    # ---- flag keys (C14 b): the same sequence table that FETCH FLAGS reports -----------------------------------------
+    COH = "is_none(self._sequences) or len(some(self._sequences)) == 0 or forall(lambda s: (s in some(self._sequences)) == mem(self.mailbox.sequences, s, self.msg_key), 'str')"
+    reg.contract(
+        P, "SearchContext.sequences", params={"self": "ref:SearchContext"}, ret="list[str]",
+        requires={"cache-coherent": COH},
+        ensures={"is": "forall(lambda s: (s in result) == mem(self.mailbox.sequences, s, self.msg_key), 'str')",
+                 "flags-untouched": "forall(lambda s, k: mem(self.mailbox.sequences, s, k) == mem(old(self.mailbox.sequences), s, k), 'str', 'int')"},
+        modifies=["self._sequences", "Mailbox.sequences"],
+        props=["C14"],
+    )
+    reg.contract(
+        P, "IMAPSearch._match_keyword", params={"self": "ref:IMAPSearch"}, ret="bool",
+        requires={"cache-coherent": COH.replace("self.", "self.ctx.")},
+        ensures={"flag-key": "result == mem(old(self.ctx.mailbox.sequences), seq_of_flag(self.args['keyword']), self.ctx.msg_key)"},
+        modifies=["SearchContext._sequences", "Mailbox.sequences"],
+        props=["C14", "C04"],
+    )
